@@ -92,6 +92,19 @@ func init() {
 				}
 				one(c, "raw-allschemes", "foo", string(s))
 			})
+			// bounds taken from the current source: v-1, v, v+1 of every integer literal (and the run-time powers
+			// of two), as a single part, as last part after 1-3 small parts, and as first part
+			c.Space("source-derived-bounds")
+			_, ints := sourceLiterals()
+			for _, v := range ints {
+				if !c.Mine() {
+					continue
+				}
+				for _, h := range []string{v, "1." + v, "1.2." + v, "1.2.3." + v, v + ".1", "0x7f." + v + ".1", v + ".", "1." + v + ".3.4"} {
+					one(c, "source-derived-bounds", "http", h)
+				}
+				one(c, "source-derived-bounds", "foo", "1."+v)
+			}
 			c.Space("parts-product")
 			for n := 1; n <= 5; n++ {
 				slots := make([][]string, n)
@@ -213,6 +226,17 @@ func init() {
 				}
 			}
 			rec(nil, false)
+			c.Space("source-derived-bounds")
+			_, ints := sourceLiterals()
+			for _, v := range ints {
+				if !c.Mine() {
+					continue
+				}
+				hexv := strings.TrimPrefix(v, "0x")
+				for _, h := range []string{"[::1.2.3." + v + "]", "[::" + v + ".2.3.4]", "[::1." + v + ".3.4]", "[1:2:3:4:5:6:1.2." + v + ".4]", "[::" + hexv + "]", "[" + hexv + "::]", "[1:" + hexv + ":3:4:5:6:7:8]"} {
+					one(c, "source-derived-bounds", "http", h)
+				}
+			}
 			c.Space("serializer-6^8")
 			var a [8]uint16
 			idx := 0
